@@ -39,6 +39,27 @@ func checkNodeConstruction(w *World, r *Report, id string) {
 	fromRef := w.Func("newNodeFromRef")
 	newNode := w.Func("newNode")
 	r.Analysed(FuncName(fromRef), FuncName(newNode))
+	// (a0) the derived fields of a node (route, the infix sub-node built from it, params) are written only by the
+	// constructor: assigning node.route afterwards leaves the precomputed sub-node with the previous route
+	for _, fn := range w.FoxFuncs() {
+		if isTestHelper(w, fn) || fn == fromRef {
+			continue
+		}
+		eachInstr(fn, func(in ssa.Instruction) {
+			st, ok := in.(*ssa.Store)
+			if !ok {
+				return
+			}
+			base, f, ok := fieldOfAddr(st.Addr)
+			if !ok || namedOf(derefType(base.Type())) != nodeT {
+				return
+			}
+			switch f.Name() {
+			case "route", "inode", "params":
+				ru.Fail("store to node."+f.Name()+" in "+FuncName(fn), w.InstrPos(st), "derived fields of a node are set only by the constructor newNodeFromRef", "assigned outside the constructor: the other fields derived from it (the precomputed infix sub-node carries its own copy of the route) keep their old value")
+			}
+		})
+	}
 	// (a) allocations
 	for _, fn := range w.FoxFuncs() {
 		if isTestHelper(w, fn) {
@@ -139,6 +160,20 @@ func checkNodeConstruction(w *World, r *Report, id string) {
 			if ia, ok := x.Addr.(*ssa.IndexAddr); ok {
 				if _, isMake := ia.X.(*ssa.MakeSlice); isMake {
 					keyByte = true
+				}
+			}
+		case *ssa.BinOp:
+			// or: the first key byte compared with '{' / '*' (if or switch form)
+			if x.Op == token.EQL || x.Op == token.NEQ {
+				for _, side := range []ssa.Value{x.X, x.Y} {
+					if k, ok := constInt(side); ok {
+						if k == '{' {
+							hasBrace = true
+						}
+						if k == '*' {
+							hasStar = true
+						}
+					}
 				}
 			}
 		}
